@@ -27,7 +27,7 @@ def requirements(tier):
     return {"min_counters": {"round_trips": 170 * k, "objects_compared": 2500 * k, "inputs_compared": 10000 * k, "results_compared": 170 * k,
                              "re_exports_compared": 170 * k, "edits_on_loaded_system": 120 * k, "v9_files_loaded": 80 * k, "after_history": 30 * k},
             "required_classes": ["builders", "job_shared_by_2_patterns", "step_repeated_in_journey", "job_repeated_in_step", "jobless_step",
-                                 "multi_timezone", "non_integer_hourly_input"]}
+                                 "multi_timezone", "non_integer_hourly_input", "sources_same_name_other_link"]}
 
 
 def norm_export(d):
@@ -115,6 +115,16 @@ def run_case(case):
     if case["idx"] % 3 == 1:
         from .c17 import builder_spec
         spec = builder_spec(rnd); classes.add("builders")
+    if spec is None:
+        spec = gen.rand_spec(rnd, case["tier"], max_len=50)
+    # sources that share a name but not a link (one "datasheet" per piece of hardware), some without link
+    k_ = 0
+    for n_, o_ in spec["objects"].items():
+        for p_, vs_ in o_["params"].items():
+            if vs_[0] == "q" and len(vs_) == 3 and rnd.random() < 0.15:
+                o_["params"][p_] = vs_ + [{"source": ["Manufacturer datasheet", f"https://example.org/datasheet/{k_}" if k_ % 5 else None]}]; k_ += 1
+    if k_ >= 2:
+        classes.add("sources_same_name_other_link")
     h = Hist(rnd, case["tier"], spec=spec, max_len=50)
     C = {k: 0 for k in ("round_trips", "objects_compared", "inputs_compared", "results_compared", "re_exports_compared", "edits_on_loaded_system",
                         "v9_files_loaded", "after_history", "build_failed", "boundary_skipped")}
